@@ -9,9 +9,15 @@ Three parts, all on the harness-owned virtual-time loop (vlib/vtime.py):
   callbacks / timeouts / add_future registrations from inside; add_future with asyncio and
   concurrent futures already done or completed later; clock advances (timer by timer) and clock jumps
   (several timers become due at once).  The execution log is compared with a model.
-* threads: k in 2..4 real producer threads plus the loop thread call add_callback with tagged
-  payloads while the loop is running (and blocked in select: allow_block).  Only order-independent
-  clauses: every payload exactly once, per-thread FIFO.
+* threads: real producer threads call add_callback with tagged payloads; a producer is a plain thread,
+  or runs its *own* asyncio loop (asyncio.run) / its own Tornado IOLoop (run_sync) and calls
+  target.add_callback from inside a coroutine there.  "busy" mode: k in 2..4 producers plus the loop
+  thread itself, the target loop blocked in select between wake-ups (allow_block).  "idle" mode: k in
+  1..4 producers, the target loop has nothing scheduled at all (the harness task waits on a future), so
+  only the producers' wake-ups make it run; a watcher selector (see _IdleWatchSelector for the soundness
+  argument) reports handles that sit in the ready queue while the loop would sleep forever.  Only
+  order-independent clauses: every payload exactly once (none lost, none queued without a wake-up),
+  per-thread FIFO.
 * run_sync: function returning None / raising / coroutine finishing before or after the timeout /
   never finishing; result, exception identity, TimeoutError + the coroutine saw CancelledError,
   not earlier than the timeout on the loop's clock; afterwards the loop is stopped and reusable.
@@ -36,6 +42,11 @@ Sensitivity (quick tier, seed 1, one textual mutation at a time on a scratch cop
   * run_sync returns None instead of the result                                -> caught (C38.run_sync.wrong_outcome)
   * run_sync does not remove its timeout after start() returns                 -> caught (C38.run_sync.loop_not_reusable)
   * add_callback from a thread without a running loop is dropped               -> caught (C38.threads.callback_lost, run_sync.never_returns)
+  * add_callback uses the non-threadsafe call_soon whenever *any* loop is running in the calling thread
+    (get_running_loop() succeeds) instead of only for its own loop               -> caught at seeds 1-3
+    (C38.threads.callback_queued_without_wakeup) since producers that run their own asyncio/Tornado loop and the
+    idle-target mode were added.  Earlier version: missed (plain producers only; the joiner's wake-up and the
+    virtual loop's 5 ms polling masked the missing wake-up).
   * call_at without `max(0, ...)` (DESIGN)                                      -> NOT caught: equivalent; asyncio's call_later accepts a
     negative delay and fires it at once, only the (unspecified) order among already-past deadlines changes.
 """
@@ -56,8 +67,8 @@ READY = True
 RULE = (
     "main: Hypothesis op-lists (3..30 ops) over {add_callback, spawn_callback, 4 timeout forms x 10 deadline offsets "
     "(multiples of 0.25 s incl. past/now/far), remove_timeout, add_future (asyncio/concurrent, done/later), fire, "
-    "advance, jump, settle} x 12 callback behaviours; threads: k in 2..4 producers x m<=40 payloads + loop-thread "
-    "payloads; run_sync: 8 function kinds x durations x timeouts. non-trivial (main) = >=3 scheduled items with a "
+    "advance, jump, settle} x 12 callback behaviours; threads: busy mode k in 2..4 producers x m<=40 payloads + loop-thread "
+    "payloads, idle-target mode k in 1..4 x m<=25, each producer plain / inside asyncio.run / inside its own IOLoop; run_sync: 8 function kinds x durations x timeouts. non-trivial (main) = >=3 scheduled items with a "
     "removal or a raising callback among them; distinct = SHA-1 of the case"
 )
 ASSUMPTIONS = [
@@ -332,34 +343,157 @@ def run_main(ctx, case):
 
 
 # --------------------------------------------------------------------------- threads
+IDLE_ROUNDS = 3
+
+
+class _IdleWatchSelector:
+    """Selector for the "idle target" thread scenario (replaces vtime's never-sleeping wrapper for that part).
+
+    It really blocks, in slices of 5 ms, exactly where a production loop would block: select(None) is only
+    reached when asyncio found no ready handle and no timer.  Decision rule for "would sleep forever": every
+    producer thread has terminated (so every add_callback call has returned, and call_soon_threadsafe writes
+    its wake-up byte before returning), a further select(0) still reports no event, IDLE_ROUNDS times in a
+    row.  From then on nothing can ever make the real selector return, so any handle sitting in the ready
+    queue at that moment was queued *without* a wake-up and would never run on a real loop; the count is
+    recorded in state["unwoken"].  The watcher then lets the loop continue (so the case terminates) and
+    resolves the harness future if the expected callbacks did not all arrive.  asyncio itself never blocks
+    with a non-empty ready queue (it computes timeout=0 then), and while the loop thread sits in select only
+    other threads can append, so on correct code unwoken is always 0: no false alarm, no wall-clock verdict
+    (the 5 ms slices only bound how long the harness waits for running producers)."""
+
+    def __init__(self, real, loop, threads, state, finish):
+        self._real = real
+        self._loop = loop
+        self._threads = threads
+        self._state = state
+        self._finish = finish
+
+    def select(self, timeout=None):
+        ev = self._real.select(0)
+        if ev or (timeout is not None and timeout <= 0):
+            return ev
+        if timeout is not None:
+            return self._real.select(min(timeout, 0.005))
+        st_ = self._state
+        while True:
+            ev = self._real.select(0.005)
+            if ev:
+                st_["idle_after_done"] = 0
+                st_["woken"] += 1
+                return ev
+            if any(t.is_alive() for t in self._threads):
+                continue
+            ev = self._real.select(0)
+            if ev:
+                st_["woken"] += 1
+                return ev
+            st_["idle_after_done"] += 1
+            if st_["idle_after_done"] >= IDLE_ROUNDS:
+                st_["permanent_idle"] = True
+                st_["unwoken"] += len(self._loop._ready)
+                self._loop.call_soon(self._finish)
+                return []
+
+    def __getattr__(self, name):
+        return getattr(self._real, name)
+
+
+def _producer_body(io, tid, m, barrier, deliver, pmode, errors):
+    """Returns the thread target.  pmode: plain thread / the thread runs its own asyncio loop (asyncio.run) /
+    its own Tornado IOLoop (run_sync); in the last two add_callback is called from inside a coroutine, i.e.
+    with *another* event loop running in the calling thread."""
+    from tornado.ioloop import IOLoop
+
+    def plain():
+        barrier.wait()
+        for s in range(m):
+            io.add_callback(deliver, (tid, s))
+
+    async def body():
+        barrier.wait()
+        for s in range(m):
+            io.add_callback(deliver, (tid, s))
+            if s % 4 == 3:
+                await asyncio.sleep(0)
+
+    def target():
+        try:
+            if pmode == "plain":
+                plain()
+            elif pmode == "asyncio":
+                asyncio.run(body())
+            else:
+                own = IOLoop(make_current=False)
+                try:
+                    own.run_sync(body)
+                finally:
+                    own.close(all_fds=True)
+        except BaseException as e:  # noqa: BLE001 - reported by the harness thread
+            errors.append((tid, pmode, repr(e)))
+            try:
+                barrier.abort()
+            except Exception:
+                pass
+
+    return target
+
+
 async def _scn_threads(case):
     loop = asyncio.get_running_loop()
-    loop.allow_block = True
     from tornado.ioloop import IOLoop
 
     io = IOLoop.current()
-    k, m, local = case["k"], case["m"], case["local"]
+    k, m = case["k"], case["m"]
+    mode = case.get("mode", "busy")
+    pmodes = list(case.get("pmodes") or [])
+    pmodes = (pmodes + ["plain"] * k)[:k]
+    local = case["local"] if mode == "busy" else 0
     got = []
+    errors = []
     barrier = threading.Barrier(k)
+    state = {"idle_after_done": 0, "permanent_idle": False, "unwoken": 0, "woken": 0, "errors": errors}
+    total = k * m
+    fin = loop.create_future()
 
-    def producer(tid):
-        barrier.wait()
-        for s in range(m):
-            io.add_callback(got.append, (tid, s))
+    def deliver(payload):
+        got.append(payload)
+        if mode == "idle" and len(got) >= total and not fin.done():
+            fin.set_result(None)
 
-    threads = [threading.Thread(target=producer, args=(t + 1,), daemon=True) for t in range(k)]
+    def finish():
+        if not fin.done():
+            fin.set_result(None)
+
+    threads = [threading.Thread(target=_producer_body(io, t + 1, m, barrier, deliver, pmodes[t], errors), daemon=True)
+               for t in range(k)]
+    if mode == "idle":
+        # target loop otherwise idle: the harness task waits on `fin`, nothing is scheduled, so only the
+        # producers' wake-ups make the loop run
+        nosleep = loop._selector
+        loop._selector = _IdleWatchSelector(nosleep._inner, loop, threads, state, finish)
+        try:
+            for t in threads:
+                t.start()
+            await fin
+        finally:
+            for t in threads:
+                t.join()
+            loop._selector = nosleep
+        await vtime.settle()
+        return got, state
 
     def join_all():
         for t in threads:
             t.join()
 
+    loop.allow_block = True
     ex = concurrent.futures.ThreadPoolExecutor(1)
     try:
         for t in threads:
             t.start()
         joined = loop.run_in_executor(ex, join_all)
         for s in range(local):
-            io.add_callback(got.append, (0, s))
+            io.add_callback(deliver, (0, s))
             if s % 3 == 0:
                 await asyncio.sleep(0)
         await joined  # the loop blocks in select() between wake-ups from the producers
@@ -369,17 +503,25 @@ async def _scn_threads(case):
         ex.shutdown(wait=True)
         loop.allow_block = False
     await vtime.settle()
-    return got
+    return got, state
 
 
 def run_threads(ctx, case):
     with Logs() as logs:
-        got = vtime.run(_scn_threads, case)
+        got, state = vtime.run(_scn_threads, case)
         errs = [r for r in logs.records if r[1] >= 40]
-    k, m, local = case["k"], case["m"], case["local"]
+    k, m = case["k"], case["m"]
+    mode = case.get("mode", "busy")
+    local = case["local"] if mode == "busy" else 0
     want = {(0, s) for s in range(local)} | {(t, s) for t in range(1, k + 1) for s in range(m)}
+    if state["errors"]:
+        ctx.fail("C38.threads.add_callback_raised", {"case": case, "errors": state["errors"][:3]})
     if errs:
         ctx.fail("C38.threads.error_logged", {"case": case, "records": [(r[0], r[2][:200]) for r in errs[:3]]})
+    if state["unwoken"]:
+        # queued in the target loop's ready queue without waking it: on a real loop it never runs
+        ctx.fail("C38.threads.callback_queued_without_wakeup",
+                 {"case": case, "handles_pending_while_loop_asleep_forever": state["unwoken"], "ran_before_that": state["woken"]})
     if len(got) != len(set(got)):
         dup = sorted({x for x in got if got.count(x) > 1})
         ctx.fail("C38.threads.callback_ran_twice", {"case": case, "dups": dup[:5]})
@@ -390,7 +532,13 @@ def run_threads(ctx, case):
         if seqs != sorted(seqs):
             ctx.fail("C38.threads.per_thread_fifo", {"case": case, "thread": t, "seqs": seqs[:40]})
     inter = any(got[i][0] != got[i + 1][0] for i in range(len(got) - 1))
-    ctx.note(case, {"threads"} | ({"threads_interleaved"} if inter else set()), True)
+    labels = {"threads", "threads." + mode} | ({"threads_interleaved"} if inter else set())
+    pm = (list(case.get("pmodes") or []) + ["plain"] * k)[:k]
+    if "asyncio" in pm or "ioloop" in pm:
+        labels.add("producer_runs_own_loop")
+    if mode == "idle" and all(x != "plain" for x in pm):
+        labels.add("idle_target_all_producers_own_loop")
+    ctx.note(case, labels, True)
 
 
 # --------------------------------------------------------------------------- run_sync
@@ -556,7 +704,15 @@ OP = st.one_of(
 )
 PROGRAM = st.lists(OP, min_size=3, max_size=30)
 
-THREADS = st.fixed_dictionaries({"k": st.integers(2, 4), "m": st.integers(1, 40), "local": st.integers(0, 20)})
+PMODE = st.sampled_from(["plain", "asyncio", "asyncio", "ioloop"])
+THREADS = st.one_of(
+    st.fixed_dictionaries({"mode": st.just("busy"), "k": st.integers(2, 4), "m": st.integers(1, 40), "local": st.integers(0, 20),
+                           "pmodes": st.lists(PMODE, min_size=4, max_size=4)}),
+    st.fixed_dictionaries({"mode": st.just("idle"), "k": st.integers(1, 4), "m": st.integers(1, 25), "local": st.just(0),
+                           "pmodes": st.lists(PMODE, min_size=4, max_size=4)}),
+    st.fixed_dictionaries({"mode": st.just("idle"), "k": st.integers(1, 3), "m": st.integers(1, 25), "local": st.just(0),
+                           "pmodes": st.lists(st.sampled_from(["asyncio", "ioloop"]), min_size=4, max_size=4)}),
+)
 
 RUN_SYNC = st.fixed_dictionaries({
     "kind": st.sampled_from(["coro_value", "coro_value", "coro_raise", "coro_never", "sync_none", "sync_raise",
@@ -572,4 +728,4 @@ def main(ctx):
     ctx.run_replays(PARTS)
     ctx.explore(PROGRAM, run_main, ctx.n(1000, 60000), name="main")
     ctx.explore(RUN_SYNC, run_sync_case, ctx.n(150, 3000), name="run_sync")
-    ctx.explore(THREADS, run_threads, ctx.n(40, 2000), name="threads")
+    ctx.explore(THREADS, run_threads, ctx.n(60, 2400), name="threads")
